@@ -248,11 +248,20 @@ OTHER = {"C01": _c01, "C02": _c02, "C05": _c05, "C06": _c06, "C11": _c11, "C12":
 
 
 def _c04_extra(seed, quick):
-    return conc_shards("C04", seed, "mixed", 25 if quick else 500, 40 if quick else 400, shards=4)
+    return conc_shards("C04", seed, "mixed", 25 if quick else 500, 40 if quick else 400, shards=2) + conc_shards("C04", seed, "held-client", 600 if quick else 20000, 40 if quick else 400, shards=2)
+
+
+def _c08_extra(seed, quick):
+    return conc_shards("C08", seed, "held-client", 600 if quick else 20000, 40 if quick else 400, shards=4)
 
 
 def _c07_extra(seed, quick):
-    return conc_shards("C07", seed, "same-key", 24 if quick else 400, 40 if quick else 400, shards=4)
+    return conc_shards("C07", seed, "same-key", 24 if quick else 400, 40 if quick else 400, shards=2) + conc_shards("C07", seed, "held-client", 600 if quick else 20000, 40 if quick else 400, shards=2)
+
+
+def _c16_extra(seed, quick):
+    # counters are bumped from many client threads at once: the identities are re-evaluated at the quiescent point of concurrent runs
+    return conc_shards("C16", seed, "mixed", 25 if quick else 500, 40 if quick else 400, shards=4)
 
 
 def _c17_extra(seed, quick):
@@ -292,7 +301,8 @@ SEQ_ONLY = {
         "explanation": "All builder-accepted upsert shapes against keys in the states absent, live, live+ttl, expired-unswept, soft-deleted "
                        "(worker held so that the Delete is still queued); value, expiry (through get_ref) and charged weight (snapshot) are compared "
                        "with the model right after the call and at the next quiescent point.",
-        "require": ["upserts_taking_put_path", "structure_checks"],
+        "require": ["upserts_taking_put_path", "structure_checks", "pipelined_upsert_bursts_checked"],
+        "extra_shards": _c08_extra,
     },
     "C09": {
         "explanation": "TTL alphabet {0, 1 ns, 1 s - 1 ns, 1 s, shards s, 1 h, 2^32 s, u32::MAX s, random}, clock jumps landing 1 ns before / 1 ns after / far "
@@ -303,8 +313,10 @@ SEQ_ONLY = {
     "C16": {
         "explanation": "After every step of S-mode histories (no-pressure and pressure, all-hit and all-miss prefixes, weight decreases through upserts, "
                        "evictions, sweeps) the statistics are compared with what the harness issued and with the snapshot: hits+misses = lookups, "
-                       "added-deleted = held, weight added-removed = used, rejected = admission refusals, hit ratio = hits/lookups.",
-        "require": ["stats_checks", "critical:all-hit-prefix", "critical:all-miss-prefix"],
+                       "added-deleted = held, weight added-removed = used, rejected = admission refusals, hit ratio = hits/lookups. The same identities are evaluated at the quiescent "
+                       "point of concurrent C-mode runs (2-16 threads bumping the counters at once), against the lookups and refusals the clients recorded.",
+        "require": ["stats_checks", "critical:all-hit-prefix", "critical:all-miss-prefix", "concurrent_stats_checks"],
+        "extra_shards": _c16_extra,
     },
     "C17": {
         "explanation": "S-mode histories with arguments at and around type/arithmetic boundaries (weights 1, 24, 25, max, max+1, i64::MAX; TTL 0..Duration::MAX; "
